@@ -165,7 +165,7 @@ pub fn run(ctx: &mut Ctx, input: &str) {
                     let fmt = fmt_of(&a["format"]);
                     let input = a["input"].as_str().unwrap_or("");
                     let inst = msg::split(input, fmt).map(|m| msg::sha_b64(&format!("{}~{}", m.jwt, m.discs.join("~")))).unwrap_or_else(|| format!("H{}", call));
-                    ctx.emit(obj(&[("ev", qs("HolderNew")), ("inst", qs(&inst)), ("fmt", qs(fmt.name())), ("in", msg::msg_json_raw(input, fmt)), ("out", out(res.is_some(), vec![]))]));
+                    ctx.emit(obj(&[("ev", qs("HolderNew")), ("inst", qs(&inst)), ("fmt", qs(fmt.name())), ("in", msg::msg_json_raw(input, fmt)), ("pair", "0".to_string()), ("out", out(res.is_some(), vec![]))]));
                     converted += 1;
                 }
                 "holder.present" => {
